@@ -74,13 +74,26 @@ def jsonable(v):
 
 # =================================================================== stream 1: trusted deserialization
 
-def gen_env(rnd, fast=False, p_mapper=0.45):
+def gen_env(rnd, fast=False, p_mapper=0.45, reuse=None):
     """[inner..., outer]: inner classes are flat ("simple" leaves only); the outer may refer to them."""
     inners = []
     for _ in range(rnd.choice([0, 1, 1, 2])):
-        inners.append(T.gen_class(rnd, fresh("In"), simple=rnd.random() < 0.8, fast=fast and rnd.random() < 0.9,
-                                  p_mapper=p_mapper * 0.7))
-    outer = T.gen_class(rnd, fresh("K"), [c["name"] for c in inners], fast=fast, p_mapper=p_mapper)
+        # a later inner class may itself refer to the earlier (flat) ones: nesting depth 3
+        deeper = [c["name"] for c in inners] if inners and rnd.random() < 0.4 else ()
+        inners.append(T.gen_class(rnd, fresh("In"), deeper, simple=not deeper and rnd.random() < 0.8,
+                                  fast=fast and rnd.random() < 0.9, p_mapper=p_mapper * 0.7))
+    name = fresh("K")
+    if reuse is not None:
+        # the same class NAME for a different declaration (the eligibility verdict is cached per class object)
+        if reuse and rnd.random() < 0.15:
+            name = rnd.choice(reuse)
+        else:
+            reuse.append(name)
+            del reuse[:-6]
+    outer = T.gen_class(rnd, name, [c["name"] for c in inners], fast=fast, p_mapper=p_mapper)
+    for c in inners + [outer]:
+        if len(c["fields"]) >= 2 and rnd.random() < 0.2:
+            c["split"] = rnd.randint(1, len(c["fields"]) - 1)     # written as base class + subclass
     return inners + [outer]
 
 
@@ -274,7 +287,7 @@ def field_tags(tf, v, envd, level_nested):
                 tags.add("optional-unchecked")      # an ineligible class reached through Optional[...]
     if t == "array" and tf["item"]["t"] in ("ser", "enum", "enumlit"):
         tags.add("array-of-serializable")
-    if t in ("opt", "union") and v in ([], {}):
+    if (t in ("opt", "union") or (t == "prim" and tf["f"]["t"] == "none")) and v in ([], {}):
         tags.add("empty-container-for-optional")
     if t == "opt" and not tf["nf"] and tf["f"]["t"] == "enumlit":
         tags.add("optional-literal-enum")
@@ -377,37 +390,43 @@ def case_tags(env, doc, ku, inh=(), cname=None, top=True):
             for x in v:
                 if isinstance(x, dict):
                     tags |= case_tags(env, x, ku2, sub_inh, ty["item"]["cls"], False)
-                    if ty["t"] == "set" and not_identical_doc(envd[ty["item"]["cls"]], x):
+                    if ty["t"] == "set" and not_identical_doc(envd[ty["item"]["cls"]], x, envd):
                         # equal (==) elements whose str(), hence hash, differs: the two sets compare unequal
                         tags.add("set-of-structures-hash")
     return tags
 
 
-def not_identical_val(ty, v):
+def not_identical_val(ty, v, envd=None):
     t = ty["t"]
     if v is None:
         return True
     if t == "opt":
-        return not_identical_val(ty["f"], v)
+        return not_identical_val(ty["f"], v, envd)
     if t == "prim":
         return ty["f"]["t"] == "num" and ty["f"]["k"] == "Float" and isinstance(v, int) and not isinstance(v, bool)
     if t in ("array", "set") and isinstance(v, list):
-        return any(not_identical_val(ty["item"], x) for x in v)
+        return any(not_identical_val(ty["item"], x, envd) for x in v)
+    if t == "ref" and isinstance(v, dict) and envd is not None:
+        return not_identical_doc(envd[ty["cls"]], v, envd)      # nested structures print differently as well
     if t == "union":
         return isinstance(v, int) and not isinstance(v, bool) and any(
             l["t"] == "prim" and l["f"]["t"] == "num" and l["f"]["k"] == "Float" for l in ty["ls"])
     return False
 
 
-def not_identical_doc(c, d):
+def not_identical_doc(c, d, envd=None):
     """the trusted path stores something not identical to the validated value (1 for 1.0, a None attribute)"""
-    by = {fd["name"]: fd["ty"] for fd in c["fields"]}
+    keys = {}
+    for fd in c["fields"]:
+        keys.setdefault(fd["name"], fd)
+        keys.setdefault(T.own_key(c.get("mapper"), fd["name"]), fd)
+        for m in ("camel", "upper"):          # a key produced by a mapper inherited from an outer class
+            keys.setdefault(T.own_key(m, T.own_key(c.get("mapper"), fd["name"])), fd)
     for k, v in d.items():
         if v is None:
             return True
-        for fd in c["fields"]:
-            if k in (fd["name"], T.own_key(c.get("mapper"), fd["name"])) and not_identical_val(fd["ty"], v):
-                return True
+        if k in keys and not_identical_val(keys[k]["ty"], v, envd):
+            return True
     return False
 
 
@@ -429,6 +448,8 @@ def primary(tags, clause):
     """The feature that explains the failing clause: a crash is explained by a feature known to crash that way,
     a silent difference by a feature known to store an unprocessed value."""
     import re
+    if clause == "serializes-differently" and "default-not-applied" in tags:
+        return "default-not-applied"      # equal by == (getattr falls back to the default), different __dict__
     for p in PRIORITY:
         if p in tags:
             if clause.startswith("raises:"):
@@ -540,9 +561,10 @@ def eval_shards(items, ctype, fns, tag, per=150, header=None):
 def stream_deser(rep, rnd, n, model_ok):
     cases = []
     tries = 0
+    reuse = []
     while len(cases) < n and tries < n * 4:
         tries += 1
-        env = gen_env(rnd)
+        env = gen_env(rnd, reuse=reuse)
         envd = {c["name"]: c for c in env}
         ku = rnd.random() < 0.2
         try:
@@ -1114,7 +1136,7 @@ def run(rep, tier):
     stream_from_trusted(rep, rnd, 240 if quick else 2400, model_ok)
     stream_fast(rep, rnd, 300 if quick else 2500, model_ok)
     from harness import c10hist
-    c10hist.stream_fast_hist(rep, rnd, 500 if quick else 5000, (6, 2, 350) if quick else (6, 4, 4000), model_ok, fresh,
+    c10hist.stream_fast_hist(rep, rnd, 500 if quick else 5000, (4, 2, 350) if quick else (4, 3, 4000), model_ok, fresh,
                              eval_shards)
     if not proofs_ok:
         from harness.props.c17 import broken_build
